@@ -69,6 +69,14 @@ class SA(np.ndarray):
         raise TypeError("SA arrays are not picklable")
 
 
+_raw_dtype = np.ndarray.dtype.__get__
+
+
+def isobj(a):
+    """True for object ndarrays (SA reports a declared dtype at Python level; this looks at the real one)."""
+    return isinstance(a, np.ndarray) and _raw_dtype(a) == object
+
+
 def _kind(dtype):
     if dtype is None:
         return "f"
@@ -121,7 +129,7 @@ def lift_arr(a, kind=None):
     if isinstance(a, SA) and kind is None:
         return a
     arr = np.asarray(a) if not isinstance(a, np.ndarray) else a
-    if arr.dtype != object:
+    if (not isobj(arr)):
         k = kind or ("c" if arr.dtype.kind == "c" else "f")
     else:
         k = kind or "f"
@@ -130,7 +138,7 @@ def lift_arr(a, kind=None):
 
 
 def is_sym(x):
-    return isinstance(x, (SR, SC, SI)) or (isinstance(x, np.ndarray) and x.dtype == object)
+    return isinstance(x, (SR, SC, SI)) or (isinstance(x, np.ndarray) and isobj(x))
 
 
 def sym_array(name, shape, complex_=False):
@@ -145,7 +153,7 @@ def _contains_sym(obj):
     if isinstance(obj, (SR, SC, SI)):
         return True
     if isinstance(obj, np.ndarray):
-        return obj.dtype == object
+        return isobj(obj)
     if isinstance(obj, (list, tuple)):
         return any(_contains_sym(o) for o in obj)
     return False
@@ -157,7 +165,7 @@ def _elementwise(name):
             return getattr(x, name)()
         if isinstance(x, (SI,)):
             return getattr(SR.lift(x), name)()
-        if isinstance(x, np.ndarray) and x.dtype == object:
+        if isinstance(x, np.ndarray) and isobj(x):
             return _map(x, lambda e: getattr(_lift_scalar(e), name)())
         if isinstance(x, (list, tuple)) and _contains_sym(x):
             return _map(np.array(x, dtype=object), lambda e: getattr(_lift_scalar(e), name)())
@@ -326,7 +334,7 @@ class NPShim(types.ModuleType):
         return out.view(SA)
 
     def zeros_like(self, a, dtype=None, **kw):
-        if dtype is None and isinstance(a, np.ndarray) and a.dtype == object:
+        if dtype is None and isinstance(a, np.ndarray) and isobj(a):
             cplx = any(isinstance(x, SC) for x in a.ravel())
             return self.zeros(a.shape, dtype="complex128" if cplx else "float64")
         return self.zeros(_real_np.shape(a), dtype=dtype if dtype is not None else _real_np.asarray(a).dtype)
@@ -335,7 +343,7 @@ class NPShim(types.ModuleType):
         return self.zeros_like(a, dtype=dtype)
 
     def ones_like(self, a, dtype=None, **kw):
-        if dtype is None and isinstance(a, np.ndarray) and a.dtype == object:
+        if dtype is None and isinstance(a, np.ndarray) and isobj(a):
             return self.ones(a.shape, dtype="float64")
         return self.ones(_real_np.shape(a), dtype=dtype if dtype is not None else _real_np.asarray(a).dtype)
 
@@ -358,7 +366,7 @@ class NPShim(types.ModuleType):
             return self._wrap(r)
         k = self._symk(dtype)
         if k in ("f", "c"):
-            if isinstance(obj, np.ndarray) and obj.dtype != object:
+            if isinstance(obj, np.ndarray) and (not isobj(obj)):
                 return lift_arr(obj, k)
             return lift_arr(np.array(obj, dtype=object), k)
         if sym:
@@ -373,7 +381,7 @@ class NPShim(types.ModuleType):
     def asarray(self, obj, dtype=None, **kw):
         if isinstance(obj, SA) and (dtype is None or self._symk(dtype) in ("f",)):
             return obj
-        if isinstance(obj, np.ndarray) and obj.dtype != object and dtype is None and obj.dtype.kind not in "fc":
+        if isinstance(obj, np.ndarray) and (not isobj(obj)) and dtype is None and obj.dtype.kind not in "fc":
             return obj
         return self.array(obj, dtype=dtype)
 
@@ -403,7 +411,7 @@ class NPShim(types.ModuleType):
             return True
         if isinstance(x, SR):
             return False
-        if isinstance(x, np.ndarray) and x.dtype == object:
+        if isinstance(x, np.ndarray) and isobj(x):
             return any(isinstance(e, (SC, complex)) for e in x.ravel())
         return _real_np.iscomplexobj(x)
 
@@ -435,21 +443,21 @@ class NPShim(types.ModuleType):
     def real(self, x):
         if isinstance(x, (SR, SC)):
             return x.real
-        if isinstance(x, np.ndarray) and x.dtype == object:
+        if isinstance(x, np.ndarray) and isobj(x):
             return x.view(SA).real
         return self._wrap(_real_np.real(x))
 
     def imag(self, x):
         if isinstance(x, (SR, SC)):
             return x.imag
-        if isinstance(x, np.ndarray) and x.dtype == object:
+        if isinstance(x, np.ndarray) and isobj(x):
             return x.view(SA).imag
         return self._wrap(_real_np.imag(x))
 
     def conj(self, x):
         if isinstance(x, (SR, SC)):
             return x.conjugate()
-        if isinstance(x, np.ndarray) and x.dtype == object:
+        if isinstance(x, np.ndarray) and isobj(x):
             return x.view(SA).conjugate()
         return self._wrap(_real_np.conj(x))
 
@@ -458,7 +466,7 @@ class NPShim(types.ModuleType):
     def abs(self, x):
         if isinstance(x, (SR, SC)):
             return abs(x)
-        if isinstance(x, np.ndarray) and x.dtype == object:
+        if isinstance(x, np.ndarray) and isobj(x):
             return _map(x, lambda e: abs(_lift_scalar(e)))
         return self._wrap(_real_np.abs(x))
 
@@ -557,17 +565,17 @@ class NPShim(types.ModuleType):
 
     def tile(self, a, reps):
         r = _real_np.tile(a, reps)
-        return r.view(SA) if r.dtype == object else self._wrap(r)
+        return r.view(SA) if isobj(r) else self._wrap(r)
 
     def repeat(self, a, reps, axis=None):
         r = _real_np.repeat(a, reps, axis=axis)
-        return r.view(SA) if r.dtype == object else self._wrap(r)
+        return r.view(SA) if isobj(r) else self._wrap(r)
 
     def where(self, cond, *a):
         if not a:
             return _real_np.where(cond)
         r = _real_np.where(cond, *a)
-        return r.view(SA) if r.dtype == object else self._wrap(r)
+        return r.view(SA) if isobj(r) else self._wrap(r)
 
     def einsum(self, *a, **k):
         if any(is_sym(x) for x in a[1:]):
@@ -589,7 +597,7 @@ class NPShim(types.ModuleType):
 
     def diag(self, a, k=0):
         r = _real_np.diag(a, k)
-        return r.view(SA) if r.dtype == object else self._wrap(r)
+        return r.view(SA) if isobj(r) else self._wrap(r)
 
     def trace(self, a, **k):
         if is_sym(a):
@@ -605,31 +613,31 @@ class NPShim(types.ModuleType):
 
     def squeeze(self, a, axis=None):
         r = _real_np.squeeze(a, axis=axis)
-        return r.view(SA) if isinstance(r, np.ndarray) and r.dtype == object else r
+        return r.view(SA) if isinstance(r, np.ndarray) and isobj(r) else r
 
     def expand_dims(self, a, axis):
         r = _real_np.expand_dims(a, axis)
-        return r.view(SA) if r.dtype == object else r
+        return r.view(SA) if isobj(r) else r
 
     def atleast_2d(self, a):
         r = _real_np.atleast_2d(a)
-        return r.view(SA) if r.dtype == object else self._wrap(r)
+        return r.view(SA) if isobj(r) else self._wrap(r)
 
     def atleast_1d(self, a):
         r = _real_np.atleast_1d(a)
-        return r.view(SA) if r.dtype == object else self._wrap(r)
+        return r.view(SA) if isobj(r) else self._wrap(r)
 
     def transpose(self, a, axes=None):
         r = _real_np.transpose(a, axes)
-        return r.view(SA) if r.dtype == object else r
+        return r.view(SA) if isobj(r) else r
 
     def ravel(self, a, **k):
         r = _real_np.ravel(a, **k)
-        return r.view(SA) if r.dtype == object else r
+        return r.view(SA) if isobj(r) else r
 
     def reshape(self, a, shape, **k):
         r = _real_np.reshape(a, shape, **k)
-        return r.view(SA) if r.dtype == object else r
+        return r.view(SA) if isobj(r) else r
 
     def flatnonzero(self, a):
         if is_sym(a):
@@ -670,7 +678,7 @@ def _vmax(a, b):
 
 
 def _o(a):
-    if isinstance(a, np.ndarray) and a.dtype == object:
+    if isinstance(a, np.ndarray) and isobj(a):
         return a
     if isinstance(a, (SR, SC, SI)):
         return a
